@@ -1,6 +1,7 @@
 package props
 
 import (
+	"os"
 	"fmt"
 	"go/types"
 	"strings"
@@ -153,6 +154,20 @@ func runC03(p *core.Prog, r *core.Report) {
 		from := p.Func(pkgPipe, "Pipeline.handleStepUndo")
 		to := p.Func(pkgStore, "baseStore.ApplyDeltasReverse")
 		path := core.CGPath(cg, from, func(f *ssa.Function) bool { return f == to })
+		if os.Getenv("SSCHECK_DEBUG") != "" && path == nil {
+			for _, name := range []string{"ForkHandler.handleUndo", "Stores.storesHandleUndo", "Stores.undoModuleOutputs"} {
+				if obj := p.FuncObjOpt(pkgPipe, name); obj != nil {
+					if n := cg.Nodes[p.SSA.FuncValue(obj)]; n != nil {
+						for _, e := range n.Out {
+							fmt.Fprintf(os.Stderr, "CG %s -> %s\n", name, e.Callee.Func)
+						}
+						for _, e := range n.In {
+							fmt.Fprintf(os.Stderr, "CG %s <- %s\n", name, e.Caller.Func)
+						}
+					}
+				}
+			}
+		}
 		r.Check(path != nil, "C03.R4", "handleStepUndo→ApplyDeltasReverse", "handleStepUndo reaches baseStore.ApplyDeltasReverse through the registered undo handler",
 			"no call-graph path", core.CGPathString(path))
 		// every recorded output of the undone block, and every registered handler, is visited: the loops over the block's
